@@ -472,4 +472,806 @@ Section MH.
     destruct (minv_refine _ minv_init) as [Hinv' Hne']. apply moore_loop_terminates_gen; [exact Hinv' | exact Hne' | lia].
   Qed.
 
+  (* ================= assembling the quotient automaton (mk_delta) ================= *)
+  Section MkDelta.
+    Variable P : list (list A).
+    Variable leader : list A -> option A.
+
+    Definition md_step (B : list A) (a : nat) (acc2 : option (list ((list A * nat) * list A))) :=
+      match acc2, leader B with
+      | Some l, Some v => match block_of P (dstep D v a) with
+                          | Some B' => Some (((canon B, a), canon B') :: l)
+                          | None => None
+                          end
+      | _, _ => None
+      end.
+    Definition md_inner (B : list A) (acc : option (list ((list A * nat) * list A))) (Sg : list nat) :=
+      fold_right (md_step B) acc Sg.
+    Lemma mk_delta_unfold PL :
+      fold_right (fun B acc =>
+        fold_right (fun a acc2 =>
+          match acc2, leader B with
+          | Some l, Some v => match block_of P (dstep D v a) with
+                              | Some B' => Some (((canon B, a), canon B') :: l)
+                              | None => None
+                              end
+          | _, _ => None
+          end) acc (dS D)) (Some []) PL
+      = fold_right (fun B acc => md_inner B acc (dS D)) (Some []) PL.
+    Proof. reflexivity. Qed.
+
+    Definition md_entry (B : list A) (e : (list A * nat) * list A) : Prop :=
+      exists a v B', In a (dS D) /\ leader B = Some v /\ block_of P (dstep D v a) = Some B' /\
+                     e = ((canon B, a), canon B').
+
+    Lemma md_inner_spec B acc Sg : incl Sg (dS D) -> forall l, md_inner B acc Sg = Some l ->
+      exists l0 l1, acc = Some l0 /\ l = l1 ++ l0 /\ (forall e, In e l1 -> md_entry B e) /\
+                    (forall a, In a Sg -> exists S1, In ((canon B, a), S1) l1).
+    Proof.
+      induction Sg as [|a Sg IH]; intros Hincl l E.
+      - cbn in E. exists l, []. split; [exact E|]. split; [reflexivity|]. split; [intros e []|intros a []].
+      - unfold md_inner in E. cbn [fold_right] in E. fold (md_inner B acc Sg) in E.
+        unfold md_step in E at 1. destruct (md_inner B acc Sg) as [l'|] eqn:E1; [|discriminate].
+        destruct (leader B) as [v|] eqn:Ev; [|discriminate].
+        destruct (block_of P (dstep D v a)) as [B'|] eqn:Eb; [|discriminate].
+        inversion E; subst l. clear E.
+        assert (Hincl' : incl Sg (dS D)) by (intros x Hx; apply Hincl; right; exact Hx).
+        destruct (IH Hincl' l' eq_refl) as [l0 [l1 [Ea [El [Hent Hkey]]]]].
+        exists l0, (((canon B, a), canon B') :: l1). split; [exact Ea|]. split; [cbn [app]; rewrite El; reflexivity|]. split.
+        + intros e [<-|He]; [|apply Hent; exact He]. exists a, v, B'. split; [apply Hincl; left; reflexivity|]. auto.
+        + intros a' [<-|Ha']; [exists (canon B'); left; reflexivity|].
+          destruct (Hkey a' Ha') as [S1 HS1]. exists S1. right; exact HS1.
+    Qed.
+
+    Lemma md_inner_ok B l0 v Sg : leader B = Some v -> (forall a, In a Sg -> block_of P (dstep D v a) <> None) ->
+      exists l, md_inner B (Some l0) Sg = Some l.
+    Proof.
+      intros Ev. induction Sg as [|a Sg IH]; intros Hb.
+      - exists l0. reflexivity.
+      - destruct IH as [l' El']; [intros a' Ha'; apply Hb; right; exact Ha'|].
+        unfold md_inner. cbn [fold_right]. fold (md_inner B (Some l0) Sg). rewrite El'. unfold md_step. rewrite Ev.
+        destruct (block_of P (dstep D v a)) as [B'|] eqn:Eb; [eexists; reflexivity|].
+        exfalso. apply (Hb a); [left; reflexivity | exact Eb].
+    Qed.
+
+    Lemma md_outer_spec PL : forall l, fold_right (fun B acc => md_inner B acc (dS D)) (Some []) PL = Some l ->
+      (forall e, In e l -> exists B, In B PL /\ md_entry B e) /\
+      (forall B a, In B PL -> In a (dS D) -> exists S1, In ((canon B, a), S1) l).
+    Proof.
+      induction PL as [|B PL IH]; intros l E.
+      - cbn in E. inversion E; subst l. split; [intros e []|intros B a []].
+      - cbn [fold_right] in E. apply md_inner_spec in E; [|apply incl_refl].
+        destruct E as [l0 [l1 [Ea [El [Hent Hkey]]]]]. destruct (IH l0 Ea) as [IH1 IH2]. subst l. split.
+        + intros e He. apply in_app_or in He. destruct He as [He|He].
+          * exists B. split; [left; reflexivity | apply Hent; exact He].
+          * destruct (IH1 e He) as [B1 [HB1 He1]]. exists B1. split; [right; exact HB1 | exact He1].
+        + intros B1 a [<-|HB1] Ha.
+          * destruct (Hkey a Ha) as [S1 HS1]. exists S1. apply in_or_app. left; exact HS1.
+          * destruct (IH2 B1 a HB1 Ha) as [S1 HS1]. exists S1. apply in_or_app. right; exact HS1.
+    Qed.
+
+    Lemma md_outer_ok PL :
+      (forall B, In B PL -> exists v, leader B = Some v /\ forall a, In a (dS D) -> block_of P (dstep D v a) <> None) ->
+      exists l, fold_right (fun B acc => md_inner B acc (dS D)) (Some []) PL = Some l.
+    Proof.
+      induction PL as [|B PL IH]; intros Hok.
+      - exists []. reflexivity.
+      - destruct IH as [l0 El0]; [intros B1 HB1; apply Hok; right; exact HB1|].
+        cbn [fold_right]. rewrite El0. destruct (Hok B) as [v [Ev Hb]]; [left; reflexivity|].
+        apply md_inner_ok with v; assumption.
+    Qed.
+  End MkDelta.
+
+  Lemma good_block_of P x : good_partition P -> In x (dQ D) -> exists B, block_of P x = Some B /\ In B P /\ In x B.
+  Proof.
+    intros [_ [Hc _]] Hx. destruct (Hc x Hx) as [B [HB HxB]]. destruct (block_of_ex P x B HB HxB) as [B' E].
+    exists B'. split; [exact E|]. apply block_of_Some. exact E.
+  Qed.
+
+  Lemma quotient_assembles_gen P : good_partition P ->
+    exists D',
+      match mk_delta canon D P rep, block_of P (dq0 D) with
+      | Some delta, Some B0 =>
+        Some (mkDFA (map canon P) (dS D) delta (canon B0) (map canon (filter (fun B => meetsb B (dF D)) P)))
+      | _, _ => None
+      end = Some D' /\ is_quotient_of canon D P D'.
+  Proof.
+    intros Hgp. pose proof Hgp as [Hne [Hc Hd]].
+    unfold mk_delta. rewrite mk_delta_unfold.
+    destruct (md_outer_ok P rep P) as [delta Edelta].
+    { intros B HB. destruct (Hne B HB) as [HBne HBincl]. destruct (rep_In B HBne) as [v [Ev Hv]].
+      exists v. split; [exact Ev|]. intros a Ha.
+      assert (Hs : In (dstep D v a) (dQ D)) by (apply step_Q; [apply HBincl; exact Hv | exact Ha]).
+      destruct (good_block_of P (dstep D v a) Hgp Hs) as [B' [E' _]].
+      rewrite E'. discriminate. }
+    rewrite Edelta. destruct (md_outer_spec P rep P delta Edelta) as [Hent Hkey].
+    destruct (good_block_of P (dq0 D) Hgp (proj1 Hwf)) as [B0 [E0 [HB0 Hq0]]]. rewrite E0.
+    eexists. split; [reflexivity|]. unfold is_quotient_of. cbn [dQ dS dD dq0 dF].
+    split; [|split; [|split; [|split; [|split]]]].
+    - intros S0. rewrite in_map_iff. split; intros [B HB]; exists B; intuition.
+    - reflexivity.
+    - exists B0. auto.
+    - intros S0. rewrite in_map_iff. split.
+      + intros [B [E HB]]. apply filter_In in HB. destruct HB as [HB Hm]. apply meetsb_spec in Hm.
+        exists B. auto.
+      + intros [B [HB [E Hm]]]. exists B. split; [auto|]. apply filter_In. split; [exact HB|]. apply meetsb_spec. exact Hm.
+    - intros B a HB Ha. unfold ddelta. cbn [dD].
+      destruct (Hkey B a HB Ha) as [S1 HS1].
+      destruct (lookup (canon B, a) delta) as [S2|] eqn:El.
+      2:{ exfalso. revert El. eapply lookup_not_None. exact HS1. }
+      apply lookup_In in El. destruct (Hent _ El) as [B1 [HB1 [a' [v [B' [Ha' [Ev [Eb Ee]]]]]]]].
+      inversion Ee as [[Ecan Ea ES2]]. subst a'.
+      destruct (Hne B1 HB1) as [HB1ne _]. destruct (rep_In B1 HB1ne) as [v' [Ev' Hv']].
+      rewrite Ev in Ev'. inversion Ev'; subst v'.
+      destruct (block_of_Some _ _ _ Eb) as [HB' Hs].
+      exists v, B'. split; [|auto]. apply canon_In. rewrite Ecan. apply canon_In. exact Hv'.
+    - intros k S1 Hk. destruct (Hent _ Hk) as [B1 [HB1 [a' [v [B' [Ha' [Ev [Eb Ee]]]]]]]].
+      inversion Ee; subst. exists B1. cbn [fst snd]. auto.
+  Qed.
+
+  Theorem dfa_quotient_assembles : exists P D',
+    moore_loop ord rep D (S (S (length (dQ D)))) [dF D; diff (dQ D) (dF D)] = Some P /\
+    dfa_quotient canon ord rep D = Some D' /\ is_quotient_of canon D P D'.
+  Proof.
+    destruct (moore_loop ord rep D (S (S (length (dQ D)))) [dF D; diff (dQ D) (dF D)]) as [P|] eqn:E.
+    2:{ exfalso. exact (moore_loop_terminates E). }
+    destruct (moore_loop_correct P E) as [Hgp _].
+    destruct (quotient_assembles_gen P Hgp) as [D' [E' Hq]].
+    exists P, D'. split; [reflexivity|]. split; [|exact Hq].
+    unfold dfa_quotient. rewrite E. exact E'.
+  Qed.
+
+  (* ================= Hopcroft: abstract invariant (cf. design-notes/proto_hopcroft_invariant.v) ================= *)
+  Definition bstable (C S0 : list A) (b : nat) : Prop :=
+    (forall p, In p C -> In (dstep D p b) S0) \/ (forall p, In p C -> ~ In (dstep D p b) S0).
+  Definition pstable (P : list (list A)) (S0 : list A) (b : nat) : Prop := forall C, In C P -> bstable C S0 b.
+  Definition prefines (P' P : list (list A)) : Prop := forall C', In C' P' -> exists C, In C P /\ incl C' C.
+
+  Lemma bstable_sub C C' S0 b : incl C' C -> bstable C S0 b -> bstable C' S0 b.
+  Proof. intros Hs [Hb|Hb]; [left|right]; intros p Hp; apply Hb, Hs, Hp. Qed.
+  Lemma pstable_refines P P' S0 b : prefines P' P -> pstable P S0 b -> pstable P' S0 b.
+  Proof. intros Hr Hst C' HC'. destruct (Hr C' HC') as [C [HC Hsub]]. apply bstable_sub with C; [exact Hsub | apply Hst; exact HC]. Qed.
+  Lemma bstable_ext C S1 S2 b : seteq S1 S2 -> bstable C S1 b -> bstable C S2 b.
+  Proof.
+    intros He [Hb|Hb]; [left|right]; intros p Hp.
+    - apply He. apply Hb; exact Hp.
+    - intros Hc. apply (Hb p Hp). apply He. exact Hc.
+  Qed.
+  Lemma bstable_diff C S1 S2 S3 b : (forall x, In x S3 <-> In x S1 /\ ~ In x S2) ->
+    bstable C S1 b -> bstable C S2 b -> bstable C S3 b.
+  Proof.
+    intros He [H1|H1] [H2|H2].
+    - right. intros p Hp Hc. apply He in Hc. apply (proj2 Hc). apply H2; exact Hp.
+    - left. intros p Hp. apply He. split; [apply H1; exact Hp | apply H2; exact Hp].
+    - right. intros p Hp Hc. apply He in Hc. apply (H1 p Hp). apply Hc.
+    - right. intros p Hp Hc. apply He in Hc. apply (H1 p Hp). apply Hc.
+  Qed.
+
+  Inductive gen (Base : list A -> Prop) : list A -> Prop :=
+  | gen_base S0 : Base S0 -> gen Base S0
+  | gen_diff S1 S2 S3 : gen Base S1 -> gen Base S2 -> (forall x, In x S3 <-> In x S1 /\ ~ In x S2) -> gen Base S3
+  | gen_ext S1 S2 : seteq S1 S2 -> gen Base S1 -> gen Base S2.
+
+  Lemma gen_mono (B1 B2 : list A -> Prop) : (forall S0, B1 S0 -> B2 S0) -> forall S0, gen B1 S0 -> gen B2 S0.
+  Proof.
+    intros Hm S0 HS. induction HS as [S0 HS|S1 S2 S3 _ IH1 _ IH2 He|S1 S2 He _ IH].
+    - apply gen_base. apply Hm; exact HS.
+    - apply gen_diff with S1 S2; assumption.
+    - apply gen_ext with S1; assumption.
+  Qed.
+
+  Lemma gen_stable P b S0 : gen (fun S1 => pstable P S1 b) S0 -> pstable P S0 b.
+  Proof.
+    intros HS. induction HS as [S0 HS|S1 S2 S3 _ IH1 _ IH2 He|S1 S2 He _ IH].
+    - exact HS.
+    - intros C HC. apply bstable_diff with S1 S2; [exact He | apply IH1; exact HC | apply IH2; exact HC].
+    - intros C HC. apply bstable_ext with S1; [exact He | apply IH; exact HC].
+  Qed.
+
+  Definition wbase (P : list (list A)) (W : list (list A * nat)) (b : nat) (S0 : list A) : Prop :=
+    pstable P S0 b \/ exists S', In (S', b) W /\ seteq S0 S'.
+  Definition HInv (P : list (list A)) (W : list (list A * nat)) : Prop :=
+    forall b B, In b (dS D) -> In B P -> gen (wbase P W b) B.
+
+  Lemma hinv_final P : HInv P [] -> forall b B, In b (dS D) -> In B P -> pstable P B b.
+  Proof.
+    intros HI b B Hb HB. apply gen_stable. apply gen_mono with (wbase P [] b); [|apply HI; assumption].
+    intros S0 [Hs|[S' [[] _]]]. exact Hs.
+  Qed.
+
+  Lemma hinv_weaken P W W' : (forall x, In x W -> In x W') -> HInv P W -> HInv P W'.
+  Proof.
+    intros Hsub HI b B Hb HB. apply gen_mono with (wbase P W b); [|apply HI; assumption].
+    intros S0 [Hs|[S' [Hin He]]]; [left; exact Hs|]. right. exists S'. split; [apply Hsub; exact Hin | exact He].
+  Qed.
+
+  Definition halves (Pcal : list (list A)) (Wc : list (list A * nat)) (C : list A) : Prop :=
+    In C Pcal \/
+    exists B B1 B2, In B Pcal /\ (forall x, In x B <-> In x B1 \/ In x B2) /\ (forall x, In x B1 -> ~ In x B2) /\
+      (C = B1 \/ C = B2) /\
+      forall b, In b (dS D) -> (exists S', In (S', b) Wc /\ seteq B1 S') \/ (exists S', In (S', b) Wc /\ seteq B2 S').
+
+  Lemma hinv_round P Wrest S0 a0 P' W' :
+    HInv P ((S0, a0) :: Wrest) -> prefines P' P -> pstable P' S0 a0 -> incl Wrest W' ->
+    (forall C, In C P' -> halves P W' C) -> HInv P' W'.
+  Proof.
+    intros HI Href Hst0 Hkeep Hnew b B' Hb HB'.
+    assert (Hmono : forall S1, wbase P ((S0, a0) :: Wrest) b S1 -> wbase P' W' b S1).
+    { intros S1 [Hs|[S' [Hin He]]].
+      - left. apply pstable_refines with P; assumption.
+      - destruct Hin as [Heq|Hin].
+        + inversion Heq; subst S' b. left. intros C HC. apply bstable_ext with S0; [|apply Hst0; exact HC].
+          intros x; symmetry; apply He.
+        + right. exists S'. split; [apply Hkeep; exact Hin | exact He]. }
+    destruct (Hnew B' HB') as [Hold|[B [B1 [B2 [HB [Hsplit [Hdisj [Hwhich Hw]]]]]]]].
+    - apply gen_mono with (1 := Hmono). apply HI; assumption.
+    - assert (HgB : gen (wbase P' W' b) B) by (apply gen_mono with (1 := Hmono); apply HI; assumption).
+      assert (H12 : gen (wbase P' W' b) B1 /\ gen (wbase P' W' b) B2).
+      { destruct (Hw b Hb) as [[S' [Hin He]]|[S' [Hin He]]].
+        - assert (Hg1 : gen (wbase P' W' b) B1) by (apply gen_base; right; exists S'; auto).
+          split; [exact Hg1|]. apply gen_diff with B B1; [exact HgB | exact Hg1|].
+          intros x. specialize (Hsplit x). specialize (Hdisj x). tauto.
+        - assert (Hg2 : gen (wbase P' W' b) B2) by (apply gen_base; right; exists S'; auto).
+          split; [|exact Hg2]. apply gen_diff with B B2; [exact HgB | exact Hg2|].
+          intros x. specialize (Hsplit x). specialize (Hdisj x). tauto. }
+      destruct Hwhich as [->| ->]; tauto.
+  Qed.
+
+  Lemma hinv_init P W : (forall C, In C P -> incl C (dQ D)) ->
+    (forall B, In B P -> B = dF D \/ B = diff (dQ D) (dF D)) ->
+    (forall b, In b (dS D) -> exists S', In (S', b) W /\ (seteq (dF D) S' \/ seteq (diff (dQ D) (dF D)) S')) ->
+    HInv P W.
+  Proof.
+    intros HPQ Hshape HW b B Hb HB.
+    assert (HQ : gen (wbase P W b) (dQ D)).
+    { apply gen_base. left. intros C HC. left. intros p Hp. apply step_Q; [apply (HPQ C HC); exact Hp | exact Hb]. }
+    destruct (HW b Hb) as [S' [Hin He]].
+    assert (Hcases : gen (wbase P W b) (dF D) /\ gen (wbase P W b) (diff (dQ D) (dF D))).
+    { destruct He as [He|He].
+      - assert (Hg : gen (wbase P W b) (dF D)) by (apply gen_base; right; exists S'; auto).
+        split; [exact Hg|]. apply gen_diff with (dQ D) (dF D); [exact HQ | exact Hg|]. intros x. apply diff_In.
+      - assert (Hg : gen (wbase P W b) (diff (dQ D) (dF D))) by (apply gen_base; right; exists S'; auto).
+        split; [|exact Hg]. apply gen_diff with (dQ D) (diff (dQ D) (dF D)); [exact HQ | exact Hg|].
+        intros x. rewrite diff_In. split.
+        + intros Hx. split; [apply Hwf; exact Hx | tauto].
+        + intros [Hx Hn]. destruct (In_dec_l x (dF D)); tauto. }
+    destruct (Hshape B HB) as [->| ->]; tauto.
+  Qed.
+
+  (* ================= Hopcroft: the waiting set ================= *)
+  Lemma w_eqb_spec (x y : list A * nat) : w_eqb x y = true <-> seteq (fst x) (fst y) /\ snd x = snd y.
+  Proof. unfold w_eqb. rewrite andb_true_iff, seteqb_seteq, Nat.eqb_eq. tauto. Qed.
+  Lemma w_add_In y x (W : list (list A * nat)) : In y (w_add x W) -> y = x \/ In y W.
+  Proof.
+    unfold w_add. destruct (existsb (w_eqb x) W); [auto|]. intros Hy. apply in_app_or in Hy.
+    destruct Hy as [Hy|[<-|[]]]; auto.
+  Qed.
+  Lemma w_add_incl x (W : list (list A * nat)) : incl W (w_add x W).
+  Proof. unfold w_add. destruct (existsb (w_eqb x) W); intros y Hy; [exact Hy | apply in_or_app; left; exact Hy]. Qed.
+  Lemma w_add_has x (W : list (list A * nat)) : exists y, In y (w_add x W) /\ seteq (fst x) (fst y) /\ snd x = snd y.
+  Proof.
+    unfold w_add. destruct (existsb (w_eqb x) W) eqn:E.
+    - apply existsb_exists in E. destruct E as [y [Hy Ey]]. exists y. split; [exact Hy | apply w_eqb_spec; exact Ey].
+    - exists x. split; [apply in_or_app; right; left; reflexivity|]. split; [intros z; tauto | reflexivity].
+  Qed.
+  Lemma w_add_length x (W : list (list A * nat)) : length (w_add x W) <= S (length W).
+  Proof. unfold w_add. destruct (existsb (w_eqb x) W); [lia|]. rewrite app_length. cbn [length]. lia. Qed.
+
+  Lemma w_fold (X : list A) l : forall W,
+    let R := fold_left (fun Wc b => w_add (X, b) Wc) l W in
+    incl W R /\ (forall b, In b l -> exists S', In (S', b) R /\ seteq X S') /\
+    (forall y, In y R -> In y W \/ exists b, In b l /\ y = (X, b)) /\ length R <= length W + length l.
+  Proof.
+    induction l as [|b0 l IH]; intros W; cbn [fold_left].
+    - split; [apply incl_refl|]. split; [intros b []|]. split; [intros y Hy; left; exact Hy | cbn [length]; lia].
+    - destruct (IH (w_add (X, b0) W)) as [H1 [H2 [H3 H4]]]. split; [|split; [|split]].
+      + intros y Hy. apply H1. apply w_add_incl. exact Hy.
+      + intros b [<-|Hb]; [|apply H2; exact Hb].
+        destruct (w_add_has (X, b0) W) as [[S' b'] [Hy [He Eb]]]. cbn [fst snd] in He, Eb. subst b'.
+        exists S'. split; [apply H1; exact Hy | exact He].
+      + intros y Hy. destruct (H3 y Hy) as [Hy'|[b [Hb Ey]]].
+        * apply w_add_In in Hy'. destruct Hy' as [->|Hy']; [right; exists b0; split; [left; reflexivity|reflexivity] | left; exact Hy'].
+        * right. exists b. split; [right; exact Hb | exact Ey].
+      + pose proof (w_add_length (X, b0) W). cbn [length]. lia.
+  Qed.
+
+  (* ================= Hopcroft: partitions ================= *)
+  Definition hpart (P : list (list A)) : Prop :=
+    (forall B, In B P -> B <> [] /\ NoDup B /\ incl B (dQ D)) /\ cover P /\ disj P /\ NoDup P.
+
+  Lemma hpart_nodup_concat P : hpart P -> NoDup (concat P).
+  Proof.
+    intros [Hb [_ [Hd Hnd]]]. induction P as [|B P IH]; cbn [concat]; [constructor|].
+    inversion Hnd as [|B0 P0 HnB Hnd']; subst. apply NoDup_app_intro.
+    - apply Hb. left; reflexivity.
+    - apply IH; [intros B' HB'; apply Hb; right; exact HB' | | exact Hnd'].
+      intros B1 B2 q H1 H2. apply Hd; right; assumption.
+    - intros x Hx HxB. apply in_concat in Hx. destruct Hx as [B' [HB' Hx]].
+      apply HnB. rewrite (Hd B B' x); [exact HB' | left; reflexivity | right; exact HB' | exact HxB | exact Hx].
+  Qed.
+
+  Lemma hpart_length P : hpart P -> length P <= length (dQ D).
+  Proof.
+    intros Hp. apply Nat.le_trans with (length (concat P)).
+    - apply len_concat_ge. intros B HB. apply (proj1 Hp B HB).
+    - apply NoDup_incl_length; [apply hpart_nodup_concat; exact Hp|].
+      intros x Hx. apply in_concat in Hx. destruct Hx as [B [HB Hx]]. apply (proj1 Hp B HB). exact Hx.
+  Qed.
+
+  Lemma hpart_good P : hpart P -> good_partition P.
+  Proof. intros [Hb [Hc [Hd _]]]. split; [|split; assumption]. intros B HB. destruct (Hb B HB) as [H1 [_ H2]]. auto. Qed.
+
+  Lemma filter_all_true {X : Type} (f : X -> bool) (l : list X) : (forall y, In y l -> f y = true) -> filter f l = l.
+  Proof.
+    induction l as [|y l IH]; intros Hall; cbn [filter]; [reflexivity|].
+    rewrite (Hall y (or_introl eq_refl)). f_equal. apply IH. intros z Hz. apply Hall. right; exact Hz.
+  Qed.
+
+  Lemma filter_remove_len {X : Type} (f : X -> bool) (l : list X) (x : X) : NoDup l ->
+    (forall y, In y l -> f y = false -> y = x) -> length l <= S (length (filter f l)).
+  Proof.
+    induction l as [|y l IH]; intros Hnd Hone; cbn [filter length]; [lia|].
+    inversion Hnd as [|y0 l0 Hny Hnd']; subst.
+    destruct (f y) eqn:Ey.
+    - cbn [length]. assert (length l <= S (length (filter f l))); [|lia].
+      apply IH; [exact Hnd'|]. intros z Hz. apply Hone. right; exact Hz.
+    - rewrite filter_all_true; [lia|]. intros z Hz. destruct (f z) eqn:Ez; [reflexivity|exfalso].
+      assert (z = x) by (apply Hone; [right; exact Hz | exact Ez]).
+      assert (y = x) by (apply Hone; [left; reflexivity | exact Ey]). subst. contradiction.
+  Qed.
+
+  Lemma hpart_split Pc Pb P1 P2 : hpart Pc -> In Pb Pc -> P1 <> [] -> P2 <> [] -> NoDup P1 -> NoDup P2 ->
+    (forall x, In x Pb <-> In x P1 \/ In x P2) -> (forall x, In x P1 -> ~ In x P2) ->
+    let Pc' := filter (fun B => negb (seteqb B Pb)) Pc ++ [P1; P2] in
+    hpart Pc' /\ (forall C, In C Pc' <-> (In C Pc /\ C <> Pb) \/ C = P1 \/ C = P2) /\ length Pc < length Pc'.
+  Proof.
+    intros [Hb [Hc [Hd Hnd]]] HPb Hne1 Hne2 Hnd1 Hnd2 Hsplit Hdisj12 Pc'.
+    assert (HK : forall C, In C Pc -> (seteqb C Pb = false <-> C <> Pb)).
+    { intros C HC. split.
+      - intros E ->. rewrite seteqb_refl in E. discriminate.
+      - intros Hn. destruct (seteqb C Pb) eqn:E; [exfalso|reflexivity]. apply seteqb_seteq in E.
+        destruct (Hb C HC) as [HCne _]. destruct C as [|x C]; [congruence|].
+        apply Hn. apply (Hd (x :: C) Pb x HC HPb); [left; reflexivity | apply E; left; reflexivity]. }
+    assert (HM : forall C, In C Pc' <-> (In C Pc /\ C <> Pb) \/ C = P1 \/ C = P2).
+    { intros C. unfold Pc'. rewrite in_app_iff, filter_In, negb_true_iff. cbn [In]. split.
+      - intros [[HC E]|[<-|[<-|[]]]]; auto. left. split; [exact HC | apply HK; assumption].
+      - intros [[HC Hn]|[->| ->]]; auto. left. split; [exact HC | apply HK; assumption]. }
+    assert (Hsub1 : incl P1 Pb) by (intros x Hx; apply Hsplit; left; exact Hx).
+    assert (Hsub2 : incl P2 Pb) by (intros x Hx; apply Hsplit; right; exact Hx).
+    assert (HPbQ : incl Pb (dQ D)) by (apply (Hb Pb HPb)).
+    assert (Hold1 : forall C q, In C Pc -> C <> Pb -> In q C -> In q Pb -> False).
+    { intros C q HC Hn HqC HqPb. apply Hn. exact (Hd C Pb q HC HPb HqC HqPb). }
+    split; [|split; [exact HM|]].
+    - split; [|split; [|split]].
+      + intros C HC. apply HM in HC. destruct HC as [[HC _]|[->| ->]]; [apply Hb; exact HC| |].
+        * split; [exact Hne1|]. split; [exact Hnd1|]. intros x Hx. apply HPbQ, Hsub1, Hx.
+        * split; [exact Hne2|]. split; [exact Hnd2|]. intros x Hx. apply HPbQ, Hsub2, Hx.
+      + intros q Hq. destruct (Hc q Hq) as [B [HB HqB]]. destruct (eqb_dec B Pb) as [->|Hn].
+        * apply Hsplit in HqB. destruct HqB as [Hq1|Hq2]; [exists P1 | exists P2]; (split; [apply HM; auto | assumption]).
+        * exists B. split; [apply HM; left; auto | exact HqB].
+      + intros C1 C2 q HC1 HC2 Hq1 Hq2. apply HM in HC1. apply HM in HC2.
+        destruct HC1 as [[HC1 Hn1]|[->| ->]], HC2 as [[HC2 Hn2]|[->| ->]]; try reflexivity.
+        * exact (Hd C1 C2 q HC1 HC2 Hq1 Hq2).
+        * exfalso. apply (Hold1 C1 q HC1 Hn1 Hq1). apply Hsub1; exact Hq2.
+        * exfalso. apply (Hold1 C1 q HC1 Hn1 Hq1). apply Hsub2; exact Hq2.
+        * exfalso. apply (Hold1 C2 q HC2 Hn2 Hq2). apply Hsub1; exact Hq1.
+        * exfalso. exact (Hdisj12 q Hq1 Hq2).
+        * exfalso. apply (Hold1 C2 q HC2 Hn2 Hq2). apply Hsub2; exact Hq1.
+        * exfalso. exact (Hdisj12 q Hq2 Hq1).
+      + unfold Pc'. apply NoDup_app_intro.
+        * apply NoDup_filter. exact Hnd.
+        * constructor; [|constructor; [intros []|constructor]]. intros [E|[]].
+          destruct P1 as [|x P1]; [congruence|]. apply (Hdisj12 x); [left; reflexivity | rewrite E; left; reflexivity].
+        * intros C HC HCf. apply filter_In in HCf. destruct HCf as [HCPc E]. apply negb_true_iff in E.
+          apply (HK C HCPc) in E. destruct HC as [<-|[<-|[]]].
+          -- destruct P1 as [|x P1]; [congruence|]. apply (Hold1 (x :: P1) x HCPc E); [left; reflexivity | apply Hsub1; left; reflexivity].
+          -- destruct P2 as [|x P2]; [congruence|]. apply (Hold1 (x :: P2) x HCPc E); [left; reflexivity | apply Hsub2; left; reflexivity].
+    - unfold Pc'. rewrite app_length. cbn [length].
+      assert (length Pc <= S (length (filter (fun B => negb (seteqb B Pb)) Pc))); [|lia].
+      apply filter_remove_len with Pb; [exact Hnd|]. intros C HC E. apply negb_false_iff in E.
+      destruct (eqb_dec C Pb) as [->|Hn]; [reflexivity|]. apply (HK C HC) in Hn. congruence.
+  Qed.
+
+  (* ================= Hopcroft: one round ================= *)
+  Definition hr_step (W : list A) (a : nat) (st : list (list A) * list (list A * nat)) (Pb : list A)
+    : list (list A) * list (list A * nat) :=
+    let '(Pc, Wc) := st in
+    if Nat.eqb (length Pb) 1 then st
+    else let '(P1, P2) := split D W a Pb in
+         match P1, P2 with
+         | [], _ | _, [] => st
+         | _, _ =>
+           (filter (fun B => negb (seteqb B Pb)) Pc ++ [P1; P2],
+            fold_left (fun Wc' b => w_add (min_ P1 P2, b) Wc') (dS D) Wc)
+         end.
+  Lemma hop_round_unfold W a Pcal Wcal : hop_round ordB D W a Pcal Wcal = fold_left (hr_step W a) (ordB Pcal) (Pcal, Wcal).
+  Proof. reflexivity. Qed.
+
+  Lemma hr_step_cases W a Pc Wc Pb :
+    let P1 := filter (fun p => mem (dstep D p a) W) Pb in
+    let P2 := diff Pb P1 in
+    (hr_step W a (Pc, Wc) Pb = (Pc, Wc) /\ (length Pb = 1 \/ P1 = [] \/ P2 = [])) \/
+    (P1 <> [] /\ P2 <> [] /\
+     hr_step W a (Pc, Wc) Pb = (filter (fun B => negb (seteqb B Pb)) Pc ++ [P1; P2],
+                                fold_left (fun Wc' b => w_add (min_ P1 P2, b) Wc') (dS D) Wc)).
+  Proof.
+    intros P1 P2. unfold hr_step, split. fold P1. fold P2.
+    destruct (Nat.eqb (length Pb) 1) eqn:El; [left; split; [reflexivity | left; apply Nat.eqb_eq; exact El]|].
+    destruct P1 as [|x1 r1] eqn:E1; [left; split; [reflexivity | right; left; reflexivity]|].
+    destruct P2 as [|x2 r2] eqn:E2; [left; split; [reflexivity | right; right; reflexivity]|].
+    right. split; [discriminate|]. split; [discriminate|]. reflexivity.
+  Qed.
+
+  Definition wok (Wc : list (list A * nat)) : Prop := forall S0 b, In (S0, b) Wc -> In b (dS D) /\ mn_closed S0.
+
+  Definition rinv (Pcal : list (list A)) (rest : list (list A * nat)) (W : list A) (a : nat) (todo : list (list A))
+             (st : list (list A) * list (list A * nat)) : Prop :=
+    hpart (fst st) /\ (forall B, In B todo -> In B (fst st)) /\ prefines (fst st) Pcal /\
+    (forall C, In C (fst st) -> In C todo \/ bstable C W a) /\
+    incl rest (snd st) /\ (forall C, In C (fst st) -> halves Pcal (snd st) C) /\ wok (snd st) /\
+    coarser_than_mn D (fst st) /\
+    length (snd st) + length (dS D) * length Pcal <= length rest + length (dS D) * length (fst st).
+
+  Lemma halves_mono Pcal Wc Wc' C : incl Wc Wc' -> halves Pcal Wc C -> halves Pcal Wc' C.
+  Proof.
+    intros Hsub [Hold|[B [B1 [B2 [HB [Hs [Hd [Hw Hb]]]]]]]]; [left; exact Hold|].
+    right. exists B, B1, B2. split; [exact HB|]. split; [exact Hs|]. split; [exact Hd|]. split; [exact Hw|].
+    intros b Hb'. destruct (Hb b Hb') as [[S' [Hin He]]|[S' [Hin He]]]; [left|right]; exists S'; split; auto.
+  Qed.
+
+  Lemma rinv_step Pcal rest W a Pb todo st : In a (dS D) -> mn_closed W -> In Pb Pcal -> NoDup (Pb :: todo) ->
+    rinv Pcal rest W a (Pb :: todo) st -> rinv Pcal rest W a todo (hr_step W a st Pb).
+  Proof.
+    intros Ha HWmn HPbP Hnd. destruct st as [Pc Wc]. unfold rinv. cbn [fst snd].
+    intros [Hpart [Htodo [Href [Hstab [Hrest [Hhalves [Hwok [Hco Hlen]]]]]]]].
+    inversion Hnd as [|Pb0 todo0 HnPb Hnd']; subst.
+    assert (HPbPc : In Pb Pc) by (apply Htodo; left; reflexivity).
+    set (P1 := filter (fun p => mem (dstep D p a) W) Pb).
+    set (P2 := diff Pb P1).
+    assert (F1 : forall x, In x P1 <-> In x Pb /\ In (dstep D x a) W).
+    { intros x. unfold P1. rewrite filter_In, mem_In. tauto. }
+    assert (F2 : forall x, In x P2 <-> In x Pb /\ ~ In x P1) by (intros x; apply diff_In).
+    pose proof (hr_step_cases W a Pc Wc Pb) as Hcases. cbv zeta in Hcases. fold P1 in Hcases. fold P2 in Hcases.
+    destruct Hcases as [[Est Hwhy]|[Hne1 [Hne2 Est]]]; rewrite Est; cbn [fst snd].
+    - (* no split: Pb is stable w.r.t. (W, a) *)
+      assert (HstPb : bstable Pb W a).
+      { destruct Hwhy as [Hl|[E1|E2]].
+        - destruct Pb as [|x [|y r]]; try discriminate. destruct (In_dec_l (dstep D x a) W) as [Hi|Hi].
+          + left. intros p [<-|[]]. exact Hi.
+          + right. intros p [<-|[]]. exact Hi.
+        - right. intros p Hp Hc. assert (Hp1 : In p P1) by (apply F1; auto). rewrite E1 in Hp1. destruct Hp1.
+        - left. intros p Hp. destruct (In_dec_l p P1) as [Hi|Hi]; [apply F1; exact Hi|].
+          assert (Hp2 : In p P2) by (apply F2; auto). rewrite E2 in Hp2. destruct Hp2. }
+      split; [exact Hpart|]. split; [intros B HB; apply Htodo; right; exact HB|]. split; [exact Href|].
+      split; [|tauto]. intros C HC. destruct (Hstab C HC) as [[<-|Hin]|Hs]; auto.
+    - (* split *)
+      assert (Hsplit : forall x, In x Pb <-> In x P1 \/ In x P2).
+      { intros x. rewrite F2. destruct (In_dec_l x P1) as [Hi|Hi]; [|tauto]. pose proof (proj1 (F1 x) Hi). tauto. }
+      assert (Hdisj12 : forall x, In x P1 -> ~ In x P2) by (intros x Hx Hc; apply F2 in Hc; tauto).
+      assert (HndPb : NoDup Pb) by (apply (proj1 Hpart Pb HPbPc)).
+      assert (Hnd1 : NoDup P1) by (apply NoDup_filter; exact HndPb).
+      assert (Hnd2 : NoDup P2) by (apply NoDup_filter; exact HndPb).
+      destruct (hpart_split Pc Pb P1 P2 Hpart HPbPc Hne1 Hne2 Hnd1 Hnd2 Hsplit Hdisj12) as [Hpart' [HM Hlen']].
+      set (Pc' := filter (fun B => negb (seteqb B Pb)) Pc ++ [P1; P2]) in *.
+      destruct (w_fold (min_ P1 P2) (dS D) Wc) as [Hwi [Hwh [Hwo Hwl]]].
+      set (Wc' := fold_left (fun Wc' b => w_add (min_ P1 P2, b) Wc') (dS D) Wc) in *.
+      assert (Hmn1 : mn_closed P1).
+      { intros p q Hp Hq Hmn. apply F1 in Hp. apply F1. split.
+        - apply (Hco Pb p q HPbPc); tauto.
+        - apply (HWmn (dstep D p a)); [tauto | apply step_Q; assumption | apply mn_step; assumption]. }
+      assert (Hmn2 : mn_closed P2).
+      { intros p q Hp Hq Hmn. apply F2 in Hp. apply F2. split.
+        - apply (Hco Pb p q HPbPc); tauto.
+        - intros Hc. apply (proj2 Hp). apply (Hmn1 q p Hc); [|apply mn_sym; exact Hmn].
+          apply (proj1 Hpart Pb HPbPc). tauto. }
+      assert (Hmin : min_ P1 P2 = P1 \/ min_ P1 P2 = P2) by (unfold min_; destruct (Nat.leb _ _); auto).
+      split; [exact Hpart'|]. split; [|split; [|split; [|split; [|split; [|split; [|split]]]]]].
+      + intros B HB. apply HM. left. split; [apply Htodo; right; exact HB|]. intros ->. contradiction.
+      + intros C HC. apply HM in HC. destruct HC as [[HC _]|[->| ->]]; [apply Href; exact HC| |].
+        * exists Pb. split; [exact HPbP|]. intros x Hx. apply Hsplit; left; exact Hx.
+        * exists Pb. split; [exact HPbP|]. intros x Hx. apply Hsplit; right; exact Hx.
+      + intros C HC. apply HM in HC. destruct HC as [[HC Hn]|[->| ->]].
+        * destruct (Hstab C HC) as [[E|Hin]|Hs]; [congruence | left; exact Hin | right; exact Hs].
+        * right. left. intros p Hp. apply F1; exact Hp.
+        * right. right. intros p Hp Hc. apply F2 in Hp. apply (proj2 Hp). apply F1. tauto.
+      + intros y Hy. apply Hwi. apply Hrest. exact Hy.
+      + intros C HC. apply HM in HC. destruct HC as [[HC _]|HC].
+        * apply halves_mono with Wc; [exact Hwi | apply Hhalves; exact HC].
+        * right. exists Pb, P1, P2. split; [exact HPbP|]. split; [exact Hsplit|]. split; [exact Hdisj12|].
+          split; [exact HC|]. intros b Hb. destruct (Hwh b Hb) as [S' [Hin He]].
+          destruct Hmin as [E|E]; rewrite E in He; [left|right]; exists S'; auto.
+      + intros S0 b Hin. destruct (Hwo _ Hin) as [Hold|[b' [Hb' E]]]; [apply (Hwok S0 b Hold)|].
+        inversion E; subst. split; [exact Hb'|]. destruct Hmin as [-> | ->]; assumption.
+      + intros C p q HC. apply HM in HC. destruct HC as [[HC _]|[->| ->]]; [apply Hco; exact HC | apply Hmn1 | apply Hmn2].
+      + assert (length (dS D) * S (length Pc) <= length (dS D) * length Pc') by (apply Nat.mul_le_mono_l; lia).
+        rewrite Nat.mul_succ_r in *. lia.
+  Qed.
+
+  Lemma rinv_fold Pcal rest W a : In a (dS D) -> mn_closed W -> forall todo st, incl todo Pcal -> NoDup todo ->
+    rinv Pcal rest W a todo st -> rinv Pcal rest W a [] (fold_left (hr_step W a) todo st).
+  Proof.
+    intros Ha HW. induction todo as [|Pb todo IH]; intros st Hincl Hnd Hinv; cbn [fold_left]; [exact Hinv|].
+    apply IH.
+    - intros B HB. apply Hincl. right; exact HB.
+    - inversion Hnd; assumption.
+    - apply rinv_step; [exact Ha | exact HW | apply Hincl; left; reflexivity | exact Hnd | exact Hinv].
+  Qed.
+
+  (* ================= Hopcroft: the loop ================= *)
+  Definition linv (Pcal : list (list A)) (Wcal : list (list A * nat)) : Prop :=
+    hpart Pcal /\ refines_F D Pcal /\ coarser_than_mn D Pcal /\ wok Wcal /\ HInv Pcal Wcal.
+
+  Lemma hop_round_inv Pcal Wcal W a rest : linv Pcal Wcal -> pick Wcal = Some ((W, a), rest) ->
+    linv (fst (hop_round ordB D W a Pcal rest)) (snd (hop_round ordB D W a Pcal rest)) /\
+    length (snd (hop_round ordB D W a Pcal rest)) + length (dS D) * length Pcal
+      <= length rest + length (dS D) * length (fst (hop_round ordB D W a Pcal rest)).
+  Proof.
+    intros [Hpart [HF [Hco [Hwok HI]]]] Epick.
+    destruct (picker_some pick Wcal _ _ pick_ok Epick) as [Hmem _].
+    assert (HWin : In (W, a) Wcal) by (apply Hmem; left; reflexivity).
+    destruct (Hwok W a HWin) as [Ha HWmn].
+    assert (Hrestsub : incl rest Wcal) by (intros y Hy; apply Hmem; right; exact Hy).
+    rewrite hop_round_unfold.
+    assert (Hinit : rinv Pcal rest W a (ordB Pcal) (Pcal, rest)).
+    { unfold rinv. cbn [fst snd]. split; [exact Hpart|].
+      split; [intros B HB; apply (Permutation_in _ (ordB_perm Pcal)); exact HB|].
+      split; [intros C HC; exists C; split; [exact HC | apply incl_refl]|].
+      split; [intros C HC; left; apply (Permutation_in _ (Permutation_sym (ordB_perm Pcal))); exact HC|].
+      split; [apply incl_refl|]. split; [intros C HC; left; exact HC|].
+      split; [intros S0 b Hin; apply Hwok; apply Hrestsub; exact Hin|]. split; [exact Hco | lia]. }
+    assert (Hnd : NoDup (ordB Pcal)).
+    { apply (Permutation_NoDup (Permutation_sym (ordB_perm Pcal))). apply Hpart. }
+    assert (Hincl : incl (ordB Pcal) Pcal) by (intros B HB; apply (Permutation_in _ (ordB_perm Pcal)); exact HB).
+    pose proof (rinv_fold Pcal rest W a Ha HWmn (ordB Pcal) (Pcal, rest) Hincl Hnd Hinit) as Hfin.
+    destruct (fold_left (hr_step W a) (ordB Pcal) (Pcal, rest)) as [Pc Wc]. unfold rinv in Hfin. cbn [fst snd] in *.
+    destruct Hfin as [Hpart' [_ [Href [Hstab [Hrest [Hhalves [Hwok' [Hco' Hlen]]]]]]]].
+    split; [|exact Hlen]. split; [exact Hpart'|]. split; [|split; [exact Hco'|split; [exact Hwok'|]]].
+    - intros C p q HC Hp Hq. destruct (Href C HC) as [B [HB Hsub]]. apply (HF B); [exact HB | apply Hsub; exact Hp | apply Hsub; exact Hq].
+    - apply hinv_round with Pcal rest W a.
+      + apply hinv_weaken with Wcal; [|exact HI]. intros x Hx. apply Hmem in Hx. destruct Hx as [->|Hx]; [left; reflexivity | right; exact Hx].
+      + exact Href.
+      + intros C HC. destruct (Hstab C HC) as [[]|Hs]. exact Hs.
+      + exact Hrest.
+      + exact Hhalves.
+  Qed.
+
+  Lemma hop_exit P : linv P [] -> good_partition P /\ refines_F D P /\ stable D P /\ coarser_than_mn D P.
+  Proof.
+    intros [Hpart [HF [Hco [_ HI]]]]. split; [apply hpart_good; exact Hpart|]. split; [exact HF|]. split; [|exact Hco].
+    intros B C a p q HB HC Ha Hp Hq Hs.
+    destruct (hinv_final P HI a C Ha HC B HB) as [Hall|Hnone]; [apply Hall; exact Hq|].
+    exfalso. exact (Hnone p Hp Hs).
+  Qed.
+
+  Lemma hop_loop_correct_gen fuel : forall Pcal Wcal P, linv Pcal Wcal -> hop_loop ordB pick D fuel Pcal Wcal = Some P ->
+    good_partition P /\ refines_F D P /\ stable D P /\ coarser_than_mn D P.
+  Proof.
+    induction fuel as [|f IH]; intros Pcal Wcal P Hinv; cbn [hop_loop]; [discriminate|].
+    destruct (pick Wcal) as [[[W a] rest]|] eqn:Epick.
+    - destruct (hop_round_inv Pcal Wcal W a rest Hinv Epick) as [Hinv' _].
+      destruct (hop_round ordB D W a Pcal rest) as [Pc Wc]. cbn [fst snd] in Hinv'. apply IH. exact Hinv'.
+    - intros E; inversion E; subst P. apply hop_exit.
+      rewrite (picker_none pick Wcal pick_ok Epick) in Hinv. exact Hinv.
+  Qed.
+
+  Lemma hop_loop_terminates_gen fuel : forall Pcal Wcal, linv Pcal Wcal ->
+    length Wcal + length (dS D) * length (dQ D) < fuel + length (dS D) * length Pcal ->
+    hop_loop ordB pick D fuel Pcal Wcal <> None.
+  Proof.
+    induction fuel as [|f IH]; intros Pcal Wcal Hinv Hlen.
+    - pose proof (hpart_length Pcal (proj1 Hinv)) as Hle.
+      pose proof (Nat.mul_le_mono_l _ _ (length (dS D)) Hle). lia.
+    - cbn [hop_loop]. destruct (pick Wcal) as [[[W a] rest]|] eqn:Epick; [|discriminate].
+      destruct (hop_round_inv Pcal Wcal W a rest Hinv Epick) as [Hinv' Hlen'].
+      destruct (picker_some pick Wcal _ _ pick_ok Epick) as [_ Hlt].
+      destruct (hop_round ordB D W a Pcal rest) as [Pc Wc]. cbn [fst snd] in Hinv', Hlen'. apply IH; [exact Hinv'|]. lia.
+  Qed.
+
+  (* initial partition and waiting set of dfa_hopcroft *)
+  Definition hop_P0 : list (list A) :=
+    filter (fun B => match B with [] => false | _ => true end)
+           (if seteqb (dF D) (diff (dQ D) (dF D)) then [dF D] else [dF D; diff (dQ D) (dF D)]).
+  Definition hop_W0 : list (list A * nat) :=
+    fold_left (fun Wc b => w_add (min_ (dF D) (diff (dQ D) (dF D)), b) Wc) (dS D) [].
+
+  Lemma hop_P0_eq : hop_P0 = filter (fun B => match B with [] => false | _ => true end) [dF D; diff (dQ D) (dF D)].
+  Proof.
+    unfold hop_P0. destruct (seteqb (dF D) (diff (dQ D) (dF D))) eqn:E; [exfalso|reflexivity].
+    apply seteqb_seteq in E. specialize (E (dq0 D)). rewrite diff_In in E.
+    pose proof (proj1 Hwf) as Hq0. destruct (In_dec_l (dq0 D) (dF D)); tauto.
+  Qed.
+
+  Lemma hop_P0_In B : In B hop_P0 <-> B <> [] /\ (B = dF D \/ B = diff (dQ D) (dF D)).
+  Proof.
+    rewrite hop_P0_eq, filter_In. cbn [In]. split.
+    - intros [[<-|[<-|[]]] E]; (split; [intros E'; rewrite E' in E; discriminate | auto]).
+    - intros [Hne [->| ->]]; (split; [auto|]); [destruct (dF D) | destruct (diff (dQ D) (dF D))]; congruence.
+  Qed.
+
+  Lemma linv_init : linv hop_P0 hop_W0.
+  Proof.
+    destruct (w_fold (min_ (dF D) (diff (dQ D) (dF D))) (dS D) []) as [_ [Hwh [Hwo _]]]. fold hop_W0 in Hwh, Hwo.
+    assert (Hmin : min_ (dF D) (diff (dQ D) (dF D)) = dF D \/ min_ (dF D) (diff (dQ D) (dF D)) = diff (dQ D) (dF D))
+      by (unfold min_; destruct (Nat.leb _ _); auto).
+    assert (HNFnd : NoDup (diff (dQ D) (dF D))) by (apply NoDup_filter; exact HndQ).
+    assert (HinclP : forall C, In C hop_P0 -> incl C (dQ D)).
+    { intros C HC. apply hop_P0_In in HC. destruct HC as [_ [->| ->]]; [apply Hwf|]. intros x Hx. apply diff_In in Hx. tauto. }
+    split; [|split; [|split; [|split]]].
+    - split; [|split; [|split]].
+      + intros B HB. pose proof (HinclP B HB) as Hi. apply hop_P0_In in HB. destruct HB as [Hne [->| ->]]; auto.
+      + intros q Hq. destruct (In_dec_l q (dF D)) as [Hi|Hi].
+        * exists (dF D). split; [|exact Hi]. apply hop_P0_In. split; [|auto]. intros E. rewrite E in Hi. destruct Hi.
+        * assert (Hi' : In q (diff (dQ D) (dF D))) by (apply diff_In; auto).
+          exists (diff (dQ D) (dF D)). split; [|exact Hi']. apply hop_P0_In. split; [|auto]. intros E. rewrite E in Hi'. destruct Hi'.
+      + intros B1 B2 q H1 H2 Hq1 Hq2. apply hop_P0_In in H1, H2.
+        destruct H1 as [_ [->| ->]], H2 as [_ [->| ->]]; try reflexivity; apply diff_In in Hq1 || apply diff_In in Hq2; tauto.
+      + rewrite hop_P0_eq. apply NoDup_filter. constructor; [|constructor; [intros []|constructor]].
+        intros [E|[]]. pose proof (proj1 Hwf) as Hq0.
+        destruct (In_dec_l (dq0 D) (dF D)) as [Hi|Hi].
+        * pose proof Hi as Hi2. rewrite <- E in Hi2. apply diff_In in Hi2. tauto.
+        * apply Hi. rewrite <- E. apply diff_In. auto.
+    - intros B p q HB Hp Hq. apply hop_P0_In in HB. destruct HB as [_ [->| ->]]; [tauto|].
+      apply diff_In in Hp, Hq. tauto.
+    - intros B p q HB. apply hop_P0_In in HB. destruct HB as [_ [->| ->]]; [apply mn_closed_F | apply mn_closed_NF].
+    - intros S0 b Hin. destruct (Hwo _ Hin) as [[]|[b' [Hb' E]]]. inversion E; subst. split; [exact Hb'|].
+      destruct Hmin as [-> | ->]; [apply mn_closed_F | apply mn_closed_NF].
+    - apply hinv_init.
+      + exact HinclP.
+      + intros B HB. apply hop_P0_In in HB. tauto.
+      + intros b Hb. destruct (Hwh b Hb) as [S' [Hin He]]. exists S'. split; [exact Hin|].
+        destruct Hmin as [E|E]; rewrite E in He; auto.
+  Qed.
+
+  Theorem hop_loop_correct P : hop_loop ordB pick D (hop_fuel D) hop_P0 hop_W0 = Some P ->
+    good_partition P /\ refines_F D P /\ stable D P /\ coarser_than_mn D P.
+  Proof. apply hop_loop_correct_gen. exact linv_init. Qed.
+
+  Theorem hop_loop_terminates : hop_loop ordB pick D (hop_fuel D) hop_P0 hop_W0 <> None.
+  Proof.
+    apply hop_loop_terminates_gen; [exact linv_init|].
+    destruct (w_fold (min_ (dF D) (diff (dQ D) (dF D))) (dS D) []) as [_ [_ [_ Hl]]]. fold hop_W0 in Hl.
+    cbn [length] in Hl. unfold hop_fuel. cbn [Nat.mul]. rewrite Nat.mul_succ_r. lia.
+  Qed.
+
+  (* ================= Hopcroft: assembling the automaton (hop_delta) ================= *)
+  Lemma update_In_inv {K V : Type} `{Eqb K} (k : K) (v : V) (m : list (K * V)) e : In e (update k v m) -> e = (k, v) \/ In e m.
+  Proof.
+    induction m as [|[k' v'] m IH]; cbn [update].
+    - intros [<-|[]]. left; reflexivity.
+    - destruct (eqb k k').
+      + intros [<-|He]; [left; reflexivity | right; right; exact He].
+      + intros [<-|He]; [right; left; reflexivity|]. destruct (IH He) as [->|Hin]; [left; reflexivity | right; right; exact Hin].
+  Qed.
+
+  Definition hd_entry (P : list (list A)) (e : (list A * nat) * list A) : Prop :=
+    exists a Q1 Q2 v, In a (dS D) /\ In Q1 P /\ In Q2 P /\ In v Q1 /\ In (dstep D v a) Q2 /\ e = ((canon Q1, a), canon Q2).
+
+  Lemma meets_map_spec a (Q1 Q2 : list A) :
+    meetsb (map (fun q => dstep D q a) Q1) Q2 = true <-> exists v, In v Q1 /\ In (dstep D v a) Q2.
+  Proof.
+    rewrite meetsb_spec. split.
+    - intros [y [Hy Hy2]]. apply in_map_iff in Hy. destruct Hy as [v [<- Hv]]. exists v. auto.
+    - intros [v [Hv Hs]]. exists (dstep D v a). split; [apply in_map_iff; exists v; auto | exact Hs].
+  Qed.
+
+  Definition hd_step3 (a : nat) (Q1 : list A) (acc2 : list ((list A * nat) * list A)) (Q2 : list A) :=
+    if meetsb (map (fun q => dstep D q a) Q1) Q2 then update (canon Q1, a) (canon Q2) acc2 else acc2.
+  Lemma hop_delta_unfold P : hop_delta canon ordB D P =
+    fold_left (fun acc a => fold_left (fun acc1 Q1 => fold_left (hd_step3 a Q1) (ordB P) acc1) (ordB P) acc) (dS D) [].
+  Proof. reflexivity. Qed.
+
+  Lemma hop_delta_entries P : forall e, In e (hop_delta canon ordB D P) -> hd_entry P e.
+  Proof.
+    rewrite hop_delta_unfold.
+    apply (fold_left_pres (fun acc a => fold_left (fun acc1 Q1 => fold_left (hd_step3 a Q1) (ordB P) acc1) (ordB P) acc)
+             (fun m => forall e, In e m -> hd_entry P e)); [|intros e []].
+    intros acc a Ha Hacc.
+    apply (fold_left_pres (fun acc1 Q1 => fold_left (hd_step3 a Q1) (ordB P) acc1) (fun m => forall e, In e m -> hd_entry P e)); [|exact Hacc].
+    intros acc1 Q1 HQ1 Hacc1.
+    apply (fold_left_pres (hd_step3 a Q1) (fun m => forall e, In e m -> hd_entry P e)); [|exact Hacc1].
+    intros acc2 Q2 HQ2 Hacc2 e He. unfold hd_step3 in He.
+    destruct (meetsb (map (fun q => dstep D q a) Q1) Q2) eqn:Em; [|apply Hacc2; exact He].
+    apply update_In_inv in He. destruct He as [->|He]; [|apply Hacc2; exact He].
+    apply meets_map_spec in Em. destruct Em as [v [Hv Hs]]. exists a, Q1, Q2, v.
+    split; [exact Ha|]. split; [apply (Permutation_in _ (ordB_perm P)); exact HQ1|].
+    split; [apply (Permutation_in _ (ordB_perm P)); exact HQ2|]. auto.
+  Qed.
+
+  Lemma hd_step3_keeps k a Q1 acc2 Q2 : lookup k acc2 <> None -> lookup k (hd_step3 a Q1 acc2 Q2) <> None.
+  Proof.
+    intros Hk. unfold hd_step3. destruct (meetsb _ _); [|exact Hk]. rewrite lookup_update.
+    destruct (eqb k (canon Q1, a)); [discriminate | exact Hk].
+  Qed.
+
+  Lemma hop_delta_keys P a Q1 Q2 v : In a (dS D) -> In Q1 P -> In Q2 P -> In v Q1 -> In (dstep D v a) Q2 ->
+    lookup (canon Q1, a) (hop_delta canon ordB D P) <> None.
+  Proof.
+    intros Ha HQ1 HQ2 Hv Hs. rewrite hop_delta_unfold.
+    assert (HQ1' : In Q1 (ordB P)) by (apply (Permutation_in _ (Permutation_sym (ordB_perm P))); exact HQ1).
+    assert (HQ2' : In Q2 (ordB P)) by (apply (Permutation_in _ (Permutation_sym (ordB_perm P))); exact HQ2).
+    set (I := fun m : list ((list A * nat) * list A) => lookup (canon Q1, a) m <> None).
+    assert (Hkeep3 : forall a' Q1' l acc, I acc -> I (fold_left (hd_step3 a' Q1') l acc)).
+    { intros a' Q1' l acc Hacc. apply (fold_left_pres (hd_step3 a' Q1') I); [|exact Hacc].
+      intros acc2 Q2' _ Hacc2. apply hd_step3_keeps. exact Hacc2. }
+    assert (Hkeep2 : forall a' l acc, I acc -> I (fold_left (fun acc1 Q1' => fold_left (hd_step3 a' Q1') (ordB P) acc1) l acc)).
+    { intros a' l acc Hacc. apply (fold_left_pres (fun acc1 Q1' => fold_left (hd_step3 a' Q1') (ordB P) acc1) I); [|exact Hacc].
+      intros acc1 Q1' _ Hacc1. apply Hkeep3. exact Hacc1. }
+    apply (fold_left_estab (fun acc a' => fold_left (fun acc1 Q1' => fold_left (hd_step3 a' Q1') (ordB P) acc1) (ordB P) acc) I (dS D) a Ha).
+    - intros acc.
+      apply (fold_left_estab (fun acc1 Q1' => fold_left (hd_step3 a Q1') (ordB P) acc1) I (ordB P) Q1 HQ1').
+      + intros acc1. apply (fold_left_estab (hd_step3 a Q1) I (ordB P) Q2 HQ2').
+        * intros acc2. unfold I, hd_step3.
+          assert (Em : meetsb (map (fun q => dstep D q a) Q1) Q2 = true) by (apply meets_map_spec; exists v; auto).
+          rewrite Em, lookup_update, eqb_refl. discriminate.
+        * intros acc2 Q2' _ Hacc2. apply hd_step3_keeps. exact Hacc2.
+      + intros acc1 Q1' _ Hacc1. apply Hkeep3. exact Hacc1.
+    - intros acc a' _ Hacc. apply Hkeep2. exact Hacc.
+  Qed.
+
+  Lemma hopcroft_assembles_gen P : good_partition P ->
+    exists D',
+      match block_of P (dq0 D) with
+      | Some B0 => Some (mkDFA (map canon P) (dS D) (hop_delta canon ordB D P) (canon B0)
+                               (map canon (filter (fun B => meetsb B (dF D)) P)))
+      | None => None
+      end = Some D' /\ is_quotient_of canon D P D'.
+  Proof.
+    intros Hgp. pose proof Hgp as [Hne [Hc Hd]].
+    destruct (good_block_of P (dq0 D) Hgp (proj1 Hwf)) as [B0 [E0 [HB0 Hq0]]]. rewrite E0.
+    eexists. split; [reflexivity|]. unfold is_quotient_of. cbn [dQ dS dD dq0 dF].
+    split; [|split; [|split; [|split; [|split]]]].
+    - intros S0. rewrite in_map_iff. split; intros [B HB]; exists B; intuition.
+    - reflexivity.
+    - exists B0. auto.
+    - intros S0. rewrite in_map_iff. split.
+      + intros [B [E HB]]. apply filter_In in HB. destruct HB as [HB Hm]. apply meetsb_spec in Hm.
+        exists B. auto.
+      + intros [B [HB [E Hm]]]. exists B. split; [auto|]. apply filter_In. split; [exact HB|]. apply meetsb_spec. exact Hm.
+    - intros B a HB Ha. unfold ddelta. cbn [dD].
+      destruct (Hne B HB) as [HBne HBincl]. destruct B as [|v0 B'] eqn:EB; [congruence|]. rewrite <- EB in *.
+      assert (Hv0 : In v0 B) by (rewrite EB; left; reflexivity).
+      destruct (Hc (dstep D v0 a) (step_Q v0 a (HBincl v0 Hv0) Ha)) as [B2 [HB2 Hs2]].
+      pose proof (hop_delta_keys P a B B2 v0 Ha HB HB2 Hv0 Hs2) as Hkey.
+      destruct (lookup (canon B, a) (hop_delta canon ordB D P)) as [S2|] eqn:El; [|congruence].
+      apply lookup_In in El. destruct (hop_delta_entries P _ El) as [a' [Q1 [Q2 [v [Ha' [HQ1 [HQ2 [Hv [Hs Ee]]]]]]]]].
+      inversion Ee as [[Ecan Ea ES2]]. subst a'.
+      exists v, Q2. split; [|auto]. apply canon_In. rewrite Ecan. apply canon_In. exact Hv.
+    - intros k S1 Hk. destruct (hop_delta_entries P _ Hk) as [a' [Q1 [Q2 [v [Ha' [HQ1 [HQ2 [Hv [Hs Ee]]]]]]]]].
+      inversion Ee; subst. exists Q1. cbn [fst snd]. auto.
+  Qed.
+
+  Theorem dfa_hopcroft_assembles : exists P D',
+    hop_loop ordB pick D (hop_fuel D) hop_P0 hop_W0 = Some P /\
+    dfa_hopcroft canon ordB pick D = Some D' /\ is_quotient_of canon D P D'.
+  Proof.
+    destruct (hop_loop ordB pick D (hop_fuel D) hop_P0 hop_W0) as [P|] eqn:E.
+    2:{ exfalso. exact (hop_loop_terminates E). }
+    destruct (hop_loop_correct P E) as [Hgp _].
+    destruct (hopcroft_assembles_gen P Hgp) as [D' [E' Hq]].
+    exists P, D'. split; [reflexivity|]. split; [|exact Hq].
+    unfold dfa_hopcroft. fold hop_P0. fold hop_W0. cbv zeta. fold hop_P0. fold hop_W0. rewrite E. exact E'.
+  Qed.
+
 End MH.
+
+(* the initial partition / waiting set used in the statements are literally those of dfa_hopcroft *)
+Lemma hop_P0_def {A} `{Eqb A} (D : dfa A) :
+  hop_P0 D = filter (fun B => match B with [] => false | _ => true end)
+                    (if seteqb (dF D) (diff (dQ D) (dF D)) then [dF D] else [dF D; diff (dQ D) (dF D)]).
+Proof. reflexivity. Qed.
+Lemma hop_W0_def {A} `{Eqb A} (D : dfa A) :
+  hop_W0 D = fold_left (fun Wc b => w_add (min_ (dF D) (diff (dQ D) (dF D)), b) Wc) (dS D) [].
+Proof. reflexivity. Qed.
+
+Check @moore_loop_correct.
+Check @moore_loop_terminates.
+Check @dfa_quotient_assembles.
+Check @hop_loop_correct.
+Check @hop_loop_terminates.
+Check @dfa_hopcroft_assembles.
+Print Assumptions moore_loop_correct.
+Print Assumptions moore_loop_terminates.
+Print Assumptions dfa_quotient_assembles.
+Print Assumptions hop_loop_correct.
+Print Assumptions hop_loop_terminates.
+Print Assumptions dfa_hopcroft_assembles.
